@@ -1137,6 +1137,109 @@ func c12Forced(c *vk.Ctx) bool {
 			c.Eval(fmt.Sprintf("forced|%s|reacquire-during-last-close|items=%d", kind, nItems))
 		}
 
+		// --- stream AND packet handles on one address through one manager (a service listening on
+		// tcp and udp of one port): releasing every handle of one kind does not disturb the other kind ---
+		for _, goes := range []string{"packet", "stream"} {
+			m = service.NewListenerManager()
+			port = freePort()
+			addr = fmt.Sprintf("127.0.0.1:%d", port)
+			s1, err1 := m.ListenStream(addr)
+			p1, err2 := m.ListenPacket(addr)
+			if err1 != nil || err2 != nil {
+				c.Inconclusive(fmt.Sprintf("mixed kinds listen: %v %v", err1, err2))
+				continue
+			}
+			stays := "stream"
+			if goes == "stream" {
+				stays = "packet"
+				s1.Close()
+			} else {
+				p1.Close()
+			}
+			// the kind that stays is still shared: another acquisition works and is served
+			var cl2 io.Closer
+			if stays == "stream" {
+				s2, err := m.ListenStream(addr)
+				if err != nil {
+					c.Violation("C12/forced/acquire-of-an-address-in-use-failed", map[string]any{"kind": "stream", "err": err.Error(), "history": "stream and packet handles on one address; the last packet handle was closed; a stream handle is open"})
+					return false
+				}
+				cl2 = s2
+				got := make(chan uint64, 2)
+				for _, sl := range []service.StreamListener{s1, s2} {
+					go func(sl service.StreamListener) {
+						cn, err := sl.AcceptStream()
+						if err != nil {
+							return
+						}
+						defer cn.Close()
+						var b [8]byte
+						cn.SetReadDeadline(time.Now().Add(c12B))
+						if _, err := io.ReadFull(cn, b[:]); err == nil {
+							got <- u64(b[:])
+						}
+					}(sl)
+				}
+				id := nextID(c.Batch)
+				cn, err := net.DialTimeout("tcp", addr, c12B)
+				if err == nil {
+					cn.Write(putU64(id))
+					select {
+					case g := <-got:
+						if g != id {
+							err = fmt.Errorf("wrong id")
+						}
+					case <-time.After(c12B):
+						err = fmt.Errorf("not accepted")
+					}
+					cn.Close()
+				}
+				if err != nil {
+					c.Violation("C12/connection-lost-while-a-handle-keeps-accepting", map[string]any{"history": "after the packet handles of the same address were released", "err": err.Error()})
+					return false
+				}
+				s1.Close()
+			} else {
+				p2, err := m.ListenPacket(addr)
+				if err != nil {
+					c.Violation("C12/forced/acquire-of-an-address-in-use-failed", map[string]any{"kind": "packet", "err": err.Error(), "history": "stream and packet handles on one address; the last stream handle was closed; a packet handle is open"})
+					return false
+				}
+				cl2 = p2
+				uu, _ := net.DialUDP("udp", nil, &net.UDPAddr{IP: net.IPv4(127, 0, 0, 1), Port: port})
+				id := nextID(c.Batch)
+				uu.Write(putU64(id))
+				res := make(chan uint64, 1)
+				go func() {
+					b := make([]byte, 64)
+					p1.SetReadDeadline(time.Now().Add(c12B))
+					if n, _, err := p1.ReadFrom(b); err == nil && n >= 8 {
+						res <- u64(b[:8])
+					} else {
+						res <- 0
+					}
+				}()
+				select {
+				case g := <-res:
+					if g != id {
+						c.Violation("C12/datagram-lost-while-a-handle-keeps-reading", map[string]any{"history": "after the stream handles of the same address were released"})
+						return false
+					}
+				case <-time.After(c12B + time.Second):
+					c.Violation("C12/datagram-lost-while-a-handle-keeps-reading", map[string]any{"history": "after the stream handles of the same address were released"})
+					return false
+				}
+				uu.Close()
+				p1.Close()
+			}
+			cl2.Close()
+			if !c12Released(c, stays, addr) {
+				return false
+			}
+			c.Count("forced_mixed_kinds_on_one_address", 1)
+			c.Eval("forced|mixed-kinds|" + goes + "-released-first")
+		}
+
 		// --- failed acquisition (address busy) followed by a successful one: the single
 		// handle's close must still release everything ---
 		for _, kind := range []string{"stream", "packet"} {
@@ -1352,6 +1455,7 @@ func init() {
 			c.Require("forced_reacquire_during_last_close")
 			c.Require("forced_two_handles_accept_vs_close")
 			c.Require("forced_packet_request_taken_vs_close")
+			c.Require("forced_mixed_kinds_on_one_address")
 			c.Require("fd_exhaustion_recoveries")
 			c.Require("burst_datagrams_each_returned_by_exactly_one_read")
 			c12Run(c)
